@@ -13,6 +13,7 @@ def scenarios(pid, quick, rng):
     S = []
     if pid == "C07":
         S.append(dict(name="rebuild-under-writer", rf=3, steps=syslib.rebuild_under_writer(3, snaps=2)))
+        S.append(dict(name="rebuild-with-failing-copy", rf=3, steps=syslib.rebuild_with_failing_copy(3)))
         if not quick:
             for i in range(5):
                 S.append(dict(name="rebuild-interrupted-%d" % i, rf=3,
@@ -22,6 +23,7 @@ def scenarios(pid, quick, rng):
             S.append(dict(name="rebuild-rf5", rf=5, steps=syslib.rebuild_under_writer(5, snaps=1)))
     else:
         S.append(dict(name="clone-of-snapshot", rf=1, steps=syslib.clone_scenario()))
+        S.append(dict(name="clone-with-stalled-source", rf=1, steps=syslib.clone_with_stalled_source()))
         if not quick:
             for i in range(3):
                 S.append(dict(name="clone-again-%d" % i, rf=1, steps=syslib.clone_scenario()))
